@@ -226,6 +226,28 @@ def roundtrip_case(ctx, cp):
         ctx.fail("roundtrip-raises:%s" % type(e).__name__, "encode/decode of unencodable text raised", {"codepoint": cp})
         return
     ctx.case("roundtrip", str(cp), sample={"codepoint": cp, "serialized": out})
+    # the same inside attribute values (followed by a letter, a digit, '=' — where a semicolon-less reference is not decoded)
+    for tail in ("b", "=1", "9", ""):
+        val = "a" + ch + tail
+        try:
+            toks = [{"type": "StartTag", "name": "p", "namespace": None, "data": {(None, "title"): val}},
+                    {"type": "EndTag", "name": "p", "namespace": None}]
+            o2 = HTMLSerializer(omit_optional_tags=False).render(toks, "ascii").decode("ascii")
+            el = list(html5lib.parseFragment(o2))[0]
+            got = el.get("title")
+        except Exception as e:
+            ctx.fail("roundtrip-raises:%s" % type(e).__name__, "encode/decode of an unencodable attribute value raised", {"codepoint": cp})
+            continue
+        ctx.case("roundtrip-attr", "%d|%s" % (cp, tail))
+        if got != val:
+            if cp in C1:
+                cls = "roundtrip-numeric-fallback-c1-remap"
+            elif 0xD800 <= cp <= 0xDFFF:
+                cls = "roundtrip-numeric-fallback-surrogate"
+            else:
+                cls = "roundtrip-attr:%x" % cp
+            ctx.fail(cls, "an attribute value serialized with entity replacement does not decode back to itself",
+                     {"codepoint": cp, "serialized": o2, "decoded": repr(got)})
     if back != "a" + ch + "b":
         if cp in C1:
             cls = "roundtrip-numeric-fallback-c1-remap"
